@@ -846,6 +846,12 @@ def wireAll (c : Consts) (ls : List Line) : Bytes := (ls.map (wire c)).flatten
 def Plain (c : Consts) (delims : List Line) (failOnErr : Bool) (l : Line) : Prop :=
   l.Valid c ∧ delims.contains l = false ∧ (failOnErr = true → checkError c l = none)
 
+instance (c : Consts) (l : Line) : Decidable (l.Valid c) := by
+  cases l <;> unfold Line.Valid <;> infer_instance
+
+instance (c : Consts) (delims : List Line) (f : Bool) (l : Line) : Decidable (Plain c delims f l) := by
+  unfold Plain; infer_instance
+
 theorem lineOutcome_plain (c : Consts) (delims : List Line) (f : Bool) (l : Line) (h : Plain c delims f l) :
     lineOutcome c delims f l = (.line l, false, none) := by
   obtain ⟨_, hd, he⟩ := h
@@ -997,5 +1003,533 @@ theorem readAll_lines_err (c : Consts) (hc : ConstsOk c) (ls : List Line) (m res
   simp only at h1 h2 h3
   rw [readAll_terminal c _ r' (by rw [h1]; rfl), h1]
   exact ⟨rfl, h2, h4⟩
+
+set_option linter.unusedSimpArgs false
+
+/-! ### side-band demultiplexing -/
+
+/-- one side-band message as handed to `band_to_write` -/
+inductive Msg
+  | data (d : Bytes)
+  | progress (t : Bytes)
+  | error (t : Bytes)
+  deriving Repr, DecidableEq
+
+def Msg.band : Msg → UInt8
+  | .data _ => 1
+  | .progress _ => 2
+  | .error _ => 3
+
+def Msg.payload : Msg → Bytes
+  | .data d => d
+  | .progress t => t
+  | .error t => t
+
+/-- the data line `band_to_write` produces -/
+def Msg.line (m : Msg) : Line := .data (m.band :: m.payload)
+
+def Msg.isData : Msg → Bool
+  | .data _ => true
+  | _ => false
+
+/-- all band-1 payloads, concatenated -/
+def dataOf : List Msg → Bytes
+  | [] => []
+  | .data d :: ms => d ++ dataOf ms
+  | _ :: ms => dataOf ms
+
+/-- the handler calls, in order: `(is_error, text)` with one trailing newline removed -/
+def progressOf : List Msg → List (Bool × Bytes)
+  | [] => []
+  | .data _ :: ms => progressOf ms
+  | .progress t :: ms => (false, textFrom t) :: progressOf ms
+  | .error t :: ms => (true, textFrom t) :: progressOf ms
+
+theorem dataOf_append (a b : List Msg) : dataOf (a ++ b) = dataOf a ++ dataOf b := by
+  induction a with
+  | nil => rfl
+  | cons m ms ih => cases m <;> simp [dataOf, ih]
+
+theorem progressOf_append (a b : List Msg) : progressOf (a ++ b) = progressOf a ++ progressOf b := by
+  induction a with
+  | nil => rfl
+  | cons m ms ih => cases m <;> simp [progressOf, ih]
+
+theorem dataOf_nodata (a : List Msg) (h : ∀ m ∈ a, m.isData = false) : dataOf a = [] := by
+  induction a with
+  | nil => rfl
+  | cons m ms ih =>
+    have := h m (by simp)
+    cases m with
+    | data d => simp [Msg.isData] at this
+    | progress t => simp only [dataOf]; exact ih (fun x hx => h x (by simp [hx]))
+    | error t => simp only [dataOf]; exact ih (fun x hx => h x (by simp [hx]))
+
+/-- messages up to the first data message -/
+theorem split_first_data (ms : List Msg) :
+    (∀ m ∈ ms, m.isData = false) ∨
+    ∃ pre d post, ms = pre ++ Msg.data d :: post ∧ ∀ m ∈ pre, m.isData = false := by
+  induction ms with
+  | nil => left; simp
+  | cons m ms ih =>
+    cases m with
+    | data d => right; exact ⟨[], d, ms, rfl, by simp⟩
+    | progress t =>
+      rcases ih with h | ⟨pre, d, post, h1, h2⟩
+      · left; intro x hx; simp only [List.mem_cons] at hx
+        rcases hx with hx | hx
+        · subst hx; rfl
+        · exact h x hx
+      · right; refine ⟨.progress t :: pre, d, post, by simp [h1], ?_⟩
+        intro x hx; simp only [List.mem_cons] at hx
+        rcases hx with hx | hx
+        · subst hx; rfl
+        · exact h2 x hx
+    | error t =>
+      rcases ih with h | ⟨pre, d, post, h1, h2⟩
+      · left; intro x hx; simp only [List.mem_cons] at hx
+        rcases hx with hx | hx
+        · subst hx; rfl
+        · exact h x hx
+      · right; refine ⟨.error t :: pre, d, post, by simp [h1], ?_⟩
+        intro x hx; simp only [List.mem_cons] at hx
+        rcases hx with hx | hx
+        · subst hx; rfl
+        · exact h2 x hx
+
+/-- the reader is ready to read the next line (not stopped, nothing peeked) -/
+structure Ready (r : Reader) : Prop where
+  notDone : r.isDone = false
+  noPeek : r.peekBuf.len = 0
+  chunks : NonEmptyChunks r.src
+
+/-- the progress/error messages before the next data message are handed to the handler, in order -/
+theorem fillLoop_progress (c : Consts) (hc : ConstsOk c) (pre : List Msg) (tail : Bytes) (r : Reader)
+    (hnd : ∀ m ∈ pre, m.isData = false)
+    (hpl : ∀ m ∈ pre, Plain c r.delims r.failOnErr m.line)
+    (hr : Ready r) (hflat : r.src.flatten = wireAll c (pre.map Msg.line) ++ tail)
+    (fuel : Nat) (log : List (Bool × Bytes)) :
+    ∃ r', fillLoop c (pre.length + fuel) r true log = fillLoop c fuel r' true (log ++ progressOf pre) ∧
+      Ready r' ∧ r'.src.flatten = tail ∧ r'.delims = r.delims ∧ r'.failOnErr = r.failOnErr := by
+  induction pre generalizing r log with
+  | nil =>
+    refine ⟨r, by simp [progressOf], hr, by simpa [wireAll] using hflat, rfl, rfl⟩
+  | cons m ms ih =>
+    have hm := hpl m (by simp)
+    have hflat' : r.src.flatten = wire c m.line ++ (wireAll c (ms.map Msg.line) ++ tail) := by
+      rw [hflat]; simp [wireAll]
+    obtain ⟨h1, h2, h3, h4, h5, h6, h7, h8, _⟩ :=
+      readLine_wire c hc r m.line hm.1 _ hr.notDone hr.noPeek hr.chunks hflat'
+    rw [lineOutcome_plain c _ _ _ hm] at h1 h2 h3
+    simp only at h1 h2 h3
+    have hr1 : Ready (readLine c r).2 := ⟨h2, by rw [h6]; exact hr.noPeek, h5⟩
+    have hnm := hnd m (by simp)
+    have hfu : (m :: ms).length + fuel = (ms.length + fuel) + 1 := by simp; omega
+    rcases hrl : readLine c r with ⟨x, r1⟩
+    rw [hrl] at h1 h4 hr1 h7 h8
+    simp only at h1 h4 hr1 h7 h8
+    subst h1
+    cases m with
+    | data d => simp [Msg.isData] at hnm
+    | progress t =>
+      obtain ⟨r', e1, e2, e3, e4, e5⟩ := ih r1
+        (fun x hx => hnd x (by simp [hx]))
+        (by intro x hx; rw [h8, h7]; exact hpl x (by simp [hx])) hr1 h4 (log ++ [(false, textFrom t)])
+      refine ⟨r', ?_, e2, e3, by rw [e4, h8], by rw [e5, h7]⟩
+      rw [hfu]
+      conv => lhs; unfold fillLoop
+      simp only [hrl, if_true, Msg.line, Msg.band, Msg.payload, decodeBand, Line.asSlice]
+      simp only [show ((2 : UInt8) = 1) = False by decide, show ((2 : UInt8) = 2) = True by decide,
+        if_false, if_true, show ((2 : Nat) = 1) = False by decide, show ((2 : Nat) == 3) = false by decide]
+      rw [e1]
+      simp [progressOf]
+    | error t =>
+      obtain ⟨r', e1, e2, e3, e4, e5⟩ := ih r1
+        (fun x hx => hnd x (by simp [hx]))
+        (by intro x hx; rw [h8, h7]; exact hpl x (by simp [hx])) hr1 h4 (log ++ [(true, textFrom t)])
+      refine ⟨r', ?_, e2, e3, by rw [e4, h8], by rw [e5, h7]⟩
+      rw [hfu]
+      conv => lhs; unfold fillLoop
+      simp only [hrl, if_true, Msg.line, Msg.band, Msg.payload, decodeBand, Line.asSlice]
+      simp only [show ((3 : UInt8) = 1) = False by decide, show ((3 : UInt8) = 2) = False by decide,
+        show ((3 : UInt8) = 3) = True by decide,
+        if_false, if_true, show ((3 : Nat) = 1) = False by decide, show ((3 : Nat) == 3) = true by decide]
+      rw [e1]
+      simp [progressOf]
+
+/-- what `band_to_write` accepts: a non-empty payload that fits together with the band byte -/
+def Msg.Valid (c : Consts) (m : Msg) : Prop := m.payload ≠ [] ∧ m.payload.length + 1 ≤ c.maxDataLen
+
+instance (c : Consts) (m : Msg) : Decidable (m.Valid c) := by unfold Msg.Valid; infer_instance
+
+/-- the unread rest of the data band the side-band reader is positioned in -/
+def pendingOf (s : SB) : Bytes :=
+  if s.pos ≥ s.cap then [] else (s.r.buf.front.take s.cap).drop s.pos
+
+/-- invariant of `WithSidebands` while messages `rem`, a flush and `rest` are still to be read -/
+structure SBInv (c : Consts) (s : SB) (rem : List Msg) (rest : Bytes) : Prop where
+  handler : s.handler = true
+  ready : Ready s.r
+  flat : s.r.src.flatten = wireAll c (rem.map Msg.line) ++ (wire c .flush ++ rest)
+  plain : ∀ m ∈ rem, Plain c s.r.delims s.r.failOnErr m.line
+  valid : ∀ m ∈ rem, m.Valid c
+  flushDelim : s.r.delims.contains .flush = true
+  slice : s.pos ≥ s.cap ∨ (s.cap ≤ s.r.buf.len ∧ s.cap ≤ s.r.buf.front.length)
+
+theorem fillBuf_pending (c : Consts) (s : SB) (rem : List Msg) (rest : Bytes) (h : SBInv c s rem rest)
+    (hlt : s.pos < s.cap) : fillBuf c s = (.ok (pendingOf s), s) := by
+  unfold fillBuf pendingOf
+  rw [if_neg (by omega), if_neg (by omega)]
+  rcases h.slice with h1 | ⟨h1, h2⟩
+  · omega
+  · unfold bufSlice
+    rw [if_pos ⟨by omega, h1, h2⟩]
+
+theorem fillFuel_ge (c : Consts) (hc : ConstsOk c) (r : Reader) (ms : List Msg) (tail : Bytes)
+    (hv : ∀ m ∈ ms, m.line.Valid c) (hflat : r.src.flatten = wireAll c (ms.map Msg.line) ++ tail) :
+    fillFuel r = ms.length + ((fillFuel r - ms.length - 2) + 1 + 1) := by
+  have := wireAll_length c hc (ms.map Msg.line) (by
+    intro l hl
+    simp only [List.mem_map] at hl
+    obtain ⟨m, hm, rfl⟩ := hl
+    exact hv m hm)
+  unfold fillFuel
+  rw [srcLen_eq_flatten, hflat]
+  simp only [List.length_append, List.length_map] at *
+  omega
+
+/-- with nothing pending, `fill_buf` hands the progress messages to the handler and positions
+itself on the payload of the next data band -/
+theorem fillBuf_data (c : Consts) (hc : ConstsOk c) (s : SB) (pre post : List Msg) (d rest : Bytes)
+    (h : SBInv c s (pre ++ Msg.data d :: post) rest) (hnd : ∀ m ∈ pre, m.isData = false)
+    (hge : s.pos ≥ s.cap) :
+    ∃ s1, fillBuf c s = (.ok d, s1) ∧ SBInv c s1 post rest ∧ s1.pos < s1.cap ∧ pendingOf s1 = d ∧
+      s1.log = s.log ++ progressOf pre := by
+  have hc' := hc
+  obtain ⟨hu, hmin, h65, hml, _⟩ := hc
+  have hflat : s.r.src.flatten = wireAll c (pre.map Msg.line) ++
+      (wire c (Msg.data d).line ++ (wireAll c (post.map Msg.line) ++ (wire c .flush ++ rest))) := by
+    rw [h.flat]; simp [wireAll]
+  have hfuel := fillFuel_ge c hc' s.r pre _ (fun m hm => (h.plain m (by simp [hm])).1) hflat
+  obtain ⟨r', e1, e2, e3, e4, e5⟩ := fillLoop_progress c hc' pre _ s.r hnd
+    (fun m hm => h.plain m (by simp [hm])) h.ready hflat ((fillFuel s.r - pre.length - 2) + 1 + 1) s.log
+  have hd := h.plain (Msg.data d) (by simp)
+  have hdv := h.valid (Msg.data d) (by simp)
+  obtain ⟨h1, h2, h3, h4, h5, h6, h7, h8, h9⟩ :=
+    readLine_wire c hc' r' (Msg.data d).line hd.1 _ e2.notDone e2.noPeek e2.chunks e3
+  rw [e4, e5, lineOutcome_plain c _ _ _ hd] at h1 h2 h3 h9
+  simp only at h1 h2 h3 h9
+  have hbuf := h9 trivial
+  obtain ⟨hdne, hdlen⟩ := hdv
+  simp only [Msg.payload] at hdne hdlen
+  have hloop : fillLoop c (fillFuel s.r) s.r true s.log =
+      (.ok (c.u16HexBytes + 1) d.length, (readLine c r').2, s.log ++ progressOf pre) := by
+    rw [hfuel, e1]
+    conv => lhs; unfold fillLoop
+    rcases hrl : readLine c r' with ⟨x, r1⟩
+    rw [hrl] at h1
+    simp only at h1
+    subst h1
+    simp only [if_true, Msg.line, Msg.band, Msg.payload, decodeBand, Line.asSlice]
+    have : d.isEmpty = false := by
+      cases d with
+      | nil => exact absurd rfl hdne
+      | cons a b => rfl
+    simp [this]
+  have hwire := (wire_data c hc' ((1 : UInt8) :: d) hd.1).1
+  refine ⟨⟨(readLine c r').2, s.handler, c.u16HexBytes + 1, d.length + (c.u16HexBytes + 1),
+    s.log ++ progressOf pre⟩, ?_, ?_, ?_, ?_, rfl⟩
+  · unfold fillBuf
+    rw [if_pos hge, h.handler, hloop]
+    simp only
+    unfold bufSlice
+    rw [hbuf]
+    simp only [Msg.line, Msg.band, Msg.payload, hwire]
+    rw [if_pos ⟨by omega, by simp only [hu, hml]; omega, by simp [u16ToHex_length, hu]; omega⟩]
+    congr 2
+    rw [List.take_of_length_le (by simp [u16ToHex_length, hu]; omega)]
+    rw [hu]
+    show List.drop 5 (u16ToHex _ ++ ((1 : UInt8) :: d)) = d
+    rw [List.drop_append]
+    simp [u16ToHex_length]
+  · exact {
+      handler := h.handler
+      ready := ⟨h2, by rw [h6]; exact e2.noPeek, h5⟩
+      flat := h4
+      plain := by intro m hm; rw [h8, h7, e4, e5]; exact h.plain m (by simp [hm])
+      valid := fun m hm => h.valid m (by simp [hm])
+      flushDelim := by rw [h8, e4]; exact h.flushDelim
+      slice := Or.inr ⟨by simp only [hbuf, hu, hml]; omega, by
+        simp only [hbuf, Msg.line, Msg.band, Msg.payload, hwire]
+        simp [u16ToHex_length, hu]; omega⟩ }
+  · simp only; have := List.length_pos_iff.mpr hdne; omega
+  · unfold pendingOf
+    have := List.length_pos_iff.mpr hdne
+    simp only
+    rw [if_neg (by omega), hbuf]
+    simp only [Msg.line, Msg.band, Msg.payload, hwire]
+    rw [List.take_of_length_le (by simp [u16ToHex_length, hu]; omega), hu]
+    show List.drop 5 (u16ToHex _ ++ ((1 : UInt8) :: d)) = d
+    rw [List.drop_append]
+    simp [u16ToHex_length]
+
+/-- with nothing pending and only progress messages before the flush, `fill_buf` delivers them
+and reports the end of the data (`Ok(&[])`), leaving the reader stopped at the flush -/
+theorem fillBuf_eof (c : Consts) (hc : ConstsOk c) (s : SB) (pre : List Msg) (rest : Bytes)
+    (h : SBInv c s pre rest) (hnd : ∀ m ∈ pre, m.isData = false) (hge : s.pos ≥ s.cap) :
+    ∃ s1, fillBuf c s = (.ok [], s1) ∧ s1.log = s.log ++ progressOf pre ∧
+      s1.r.stoppedAt = some .flush ∧ s1.r.isDone = true ∧ s1.r.src.flatten = rest := by
+  have hc' := hc
+  obtain ⟨hu, hmin, h65, hml, _⟩ := hc
+  have hfuel := fillFuel_ge c hc' s.r pre _ (fun m hm => (h.plain m hm).1) h.flat
+  obtain ⟨r', e1, e2, e3, e4, e5⟩ := fillLoop_progress c hc' pre _ s.r hnd h.plain h.ready h.flat
+    ((fillFuel s.r - pre.length - 2) + 1 + 1) s.log
+  obtain ⟨h1, h2, h3, h4, h5, h6, h7, h8, _⟩ :=
+    readLine_wire c hc' r' .flush trivial _ e2.notDone e2.noPeek e2.chunks e3
+  have ho : lineOutcome c r'.delims r'.failOnErr .flush = (.none, true, some .flush) := by
+    unfold lineOutcome; rw [e4, h.flushDelim]; simp
+  rw [ho] at h1 h2 h3
+  simp only at h1 h2 h3
+  have hloop : fillLoop c (fillFuel s.r) s.r true s.log =
+      (.ok 0 0, (readLine c r').2, s.log ++ progressOf pre) := by
+    rw [hfuel, e1]
+    conv => lhs; unfold fillLoop
+    rcases hrl : readLine c r' with ⟨x, r1⟩
+    rw [hrl] at h1
+    simp only at h1
+    subst h1
+    rfl
+  refine ⟨⟨(readLine c r').2, s.handler, 0, 0 + 0, s.log ++ progressOf pre⟩, ?_, rfl, h3, h2, h4⟩
+  unfold fillBuf
+  rw [if_pos hge, h.handler, hloop]
+  simp only
+  unfold bufSlice
+  rw [if_pos ⟨by omega, by omega, by omega⟩]
+  simp
+
+/-- `Read::read` = `fill_buf` + copy + `consume`, when `fill_buf` yields `p` and leaves the
+reader positioned on it -/
+theorem sbRead_of_fill (c : Consts) (s s1 : SB) (p : Bytes) (n : Nat) (rem : List Msg) (rest : Bytes)
+    (hfill : fillBuf c s = (.ok p, s1)) (hinv : SBInv c s1 rem rest) (hlt : s1.pos < s1.cap)
+    (hp : pendingOf s1 = p) :
+    ∃ s2, sbRead c s n = (.ok (p.take n), s2) ∧ SBInv c s2 rem rest ∧ pendingOf s2 = p.drop n ∧
+      s2.log = s1.log := by
+  have hsl : s1.cap ≤ s1.r.buf.len ∧ s1.cap ≤ s1.r.buf.front.length := by
+    rcases hinv.slice with h | h
+    · omega
+    · exact h
+  have hplen : p.length = s1.cap - s1.pos := by
+    rw [← hp]; unfold pendingOf
+    rw [if_neg (by omega)]
+    simp only [List.length_drop, List.length_take]
+    omega
+  refine ⟨{ s1 with pos := min (s1.pos + (p.take n).length) s1.cap }, ?_, ?_, ?_, rfl⟩
+  · unfold sbRead
+    rw [hfill]
+  · exact { handler := hinv.handler, ready := hinv.ready, flat := hinv.flat, plain := hinv.plain,
+            valid := hinv.valid, flushDelim := hinv.flushDelim, slice := Or.inr hsl }
+  · unfold pendingOf
+    simp only [List.length_take]
+    by_cases hn : n ≥ s1.cap - s1.pos
+    · rw [if_pos (by omega)]
+      rw [List.drop_of_length_le (by omega)]
+    · rw [if_neg (by omega)]
+      have : min (s1.pos + min n p.length) s1.cap = s1.pos + n := by omega
+      rw [this, ← hp]
+      unfold pendingOf
+      rw [if_neg (by omega), List.drop_drop]
+
+/-- what a sequence of `read` calls delivers -/
+structure DrainOk (c : Consts) (s : SB) (rem : List Msg) (rest acc : Bytes) (ns : List Nat)
+    (out : Bytes × DrainEnd × SB) : Prop where
+  ends : out.2.1 = .eof ∨ out.2.1 = .sizes
+  dataPrefix : ∃ suf, acc ++ pendingOf s ++ dataOf rem = out.1 ++ suf
+  logPrefix : ∃ suf, s.log ++ progressOf rem = out.2.2.log ++ suf
+  atEof : out.2.1 = .eof →
+    out.1 = acc ++ pendingOf s ++ dataOf rem ∧ out.2.2.log = s.log ++ progressOf rem ∧
+    out.2.2.r.stoppedAt = some .flush ∧ out.2.2.r.isDone = true ∧ out.2.2.r.src.flatten = rest
+  /-- every `read` before the end delivers at least one byte -/
+  progressMade : out.2.1 = .sizes → acc.length + ns.length ≤ out.1.length
+
+theorem pendingOf_ne_nil (c : Consts) (s : SB) (rem : List Msg) (rest : Bytes) (h : SBInv c s rem rest)
+    (hlt : s.pos < s.cap) : pendingOf s ≠ [] := by
+  rcases h.slice with h1 | ⟨h1, h2⟩
+  · omega
+  · intro he
+    have := congrArg List.length he
+    unfold pendingOf at this
+    rw [if_neg (by omega)] at this
+    simp only [List.length_drop, List.length_take, List.length_nil] at this
+    omega
+
+theorem take_ne_nil (p : Bytes) (n : Nat) (hp : p ≠ []) (hn : 0 < n) : (p.take n).isEmpty = false := by
+  cases p with
+  | nil => exact absurd rfl hp
+  | cons a b =>
+    cases n with
+    | zero => omega
+    | succ k => rfl
+
+theorem drain_spec (c : Consts) (hc : ConstsOk c) (ns : List Nat) (hpos : ∀ n ∈ ns, 0 < n) (s : SB)
+    (rem : List Msg) (rest acc : Bytes) (h : SBInv c s rem rest) :
+    DrainOk c s rem rest acc ns (drain c s ns acc) := by
+  induction ns generalizing s rem acc with
+  | nil =>
+    unfold drain
+    exact ⟨Or.inr rfl, ⟨pendingOf s ++ dataOf rem, by simp⟩, ⟨progressOf rem, rfl⟩, (by intro h; cases h), (by intro _; simp)⟩
+  | cons n ns ih =>
+    have hn : 0 < n := hpos n (by simp)
+    have hpos' : ∀ k ∈ ns, 0 < k := fun k hk => hpos k (by simp [hk])
+    unfold drain
+    by_cases hlt : s.pos < s.cap
+    · -- inside a data band
+      have hfill := fillBuf_pending c s rem rest h hlt
+      obtain ⟨s2, e1, e2, e3, e4⟩ := sbRead_of_fill c s s (pendingOf s) n rem rest hfill h hlt rfl
+      have hne := pendingOf_ne_nil c s rem rest h hlt
+      rw [e1]
+      simp only [take_ne_nil _ n hne hn, Bool.false_eq_true, if_false]
+      have := ih hpos' s2 rem (acc ++ (pendingOf s).take n) e2
+      have hcat : acc ++ List.take n (pendingOf s) ++ pendingOf s2 ++ dataOf rem =
+          acc ++ pendingOf s ++ dataOf rem := by
+        rw [e3]; simp [List.append_assoc]
+      obtain ⟨a, b, cc, d, pm⟩ := this
+      rw [hcat] at b d
+      rw [e4] at cc d
+      refine ⟨a, b, cc, d, ?_⟩
+      intro hs
+      have := pm hs
+      have hl : 1 ≤ ((pendingOf s).take n).length := by
+        have := take_ne_nil _ n hne hn
+        cases hq : (pendingOf s).take n with
+        | nil => rw [hq] at this; simp at this
+        | cons x y => simp
+      simp only [List.length_append, List.length_cons] at *
+      omega
+    · have hge : s.pos ≥ s.cap := by omega
+      have hpend : pendingOf s = [] := by unfold pendingOf; rw [if_pos hge]
+      rcases split_first_data rem with hnd | ⟨pre, d, post, hrem, hnd⟩
+      · -- only progress messages before the flush
+        obtain ⟨s1, e1, e2, e3, e4, e5⟩ := fillBuf_eof c hc s rem rest h hnd hge
+        have hsb : sbRead c s n = (.ok [], { s1 with pos := min (s1.pos + 0) s1.cap }) := by
+          unfold sbRead; rw [e1]; simp
+        rw [hsb]
+        simp only [List.isEmpty_nil, if_true]
+        refine ⟨Or.inl rfl, ⟨[], by simp [hpend, dataOf_nodata rem hnd]⟩, ⟨[], by simp [e2]⟩, ?_, ?_⟩
+        · intro _
+          exact ⟨by simp [hpend, dataOf_nodata rem hnd], e2, e3, e4, e5⟩
+        · intro hs; cases hs
+      · subst hrem
+        obtain ⟨s1, e1, e2, e3, e4, e5⟩ := fillBuf_data c hc s pre post d rest h hnd hge
+        obtain ⟨s2, f1, f2, f3, f4⟩ := sbRead_of_fill c s s1 d n post rest e1 e2 e3 e4
+        have hdne : d ≠ [] := (h.valid (Msg.data d) (by simp)).1
+        rw [f1]
+        simp only [take_ne_nil _ n hdne hn, Bool.false_eq_true, if_false]
+        have := ih hpos' s2 post (acc ++ d.take n) f2
+        have hdata : dataOf (pre ++ Msg.data d :: post) = d ++ dataOf post := by
+          rw [dataOf_append, dataOf_nodata pre hnd]; rfl
+        have hprog : progressOf (pre ++ Msg.data d :: post) = progressOf pre ++ progressOf post := by
+          rw [progressOf_append]; rfl
+        have hcat : acc ++ List.take n d ++ pendingOf s2 ++ dataOf post =
+            acc ++ pendingOf s ++ dataOf (pre ++ Msg.data d :: post) := by
+          rw [f3, hpend, hdata]; simp [List.append_assoc]
+        have hlog : s2.log ++ progressOf post = s.log ++ progressOf (pre ++ Msg.data d :: post) := by
+          rw [f4, e5, hprog]; simp [List.append_assoc]
+        obtain ⟨a, b, cc, dd, pm⟩ := this
+        rw [hcat] at b dd
+        rw [hlog] at cc dd
+        refine ⟨a, b, cc, dd, ?_⟩
+        intro hs
+        have := pm hs
+        have hl : 1 ≤ (d.take n).length := by
+          have := take_ne_nil _ n hdne hn
+          cases hq : d.take n with
+          | nil => rw [hq] at this; simp at this
+          | cons x y => simp
+        simp only [List.length_append, List.length_cons] at *
+        omega
+
+/-! ### the decoder never looks behind a complete line -/
+
+theorem streaming_ignores_rest (c : Consts) (hc : ConstsOk c) (front rest : Bytes) (l : Line) (n : Nat)
+    (h : streaming c front = .ok (.complete l n)) :
+    streaming c (front ++ rest) = .ok (.complete l n) := by
+  obtain ⟨hu, _⟩ := hc
+  unfold streaming at h ⊢
+  rw [hu] at h ⊢
+  by_cases h4 : front.length < 4
+  · rw [if_pos h4] at h; simp at h
+  · rw [if_neg h4] at h
+    rw [if_neg (by simp; omega)]
+    have ht : (front ++ rest).take 4 = front.take 4 := List.take_append_of_le_length (by omega)
+    rw [ht]
+    cases hp : hexPrefix c (front.take 4) with
+    | panic => rw [hp] at h; simp at h
+    | err e => rw [hp] at h; simp at h
+    | ok p =>
+      rw [hp] at h
+      cases p with
+      | line l' => exact h
+      | wanted s =>
+        simp only at h ⊢
+        by_cases hw : s + 4 > c.maxLineLen
+        · rw [if_pos hw] at h; simp at h
+        · rw [if_neg hw] at h ⊢
+          by_cases hl : front.length < s + 4
+          · rw [if_pos hl] at h; simp at h
+          · rw [if_neg hl] at h
+            rw [if_neg (by simp; omega)]
+            have ht2 : (front ++ rest).take (s + 4) = front.take (s + 4) :=
+              List.take_append_of_le_length (by omega)
+            rw [ht2]
+            exact h
+
+theorem allAtOnce_ignores_rest (c : Consts) (hc : ConstsOk c) (front rest : Bytes) (l : Line)
+    (h : allAtOnce c front = .ok l) : allAtOnce c (front ++ rest) = .ok l := by
+  unfold allAtOnce at h ⊢
+  cases hs : streaming c front with
+  | panic => rw [hs] at h; simp at h
+  | err e => rw [hs] at h; simp at h
+  | ok st =>
+    rw [hs] at h
+    cases st with
+    | incomplete k => simp at h
+    | complete l' n =>
+      simp only [Out.ok.injEq] at h
+      subst h
+      rw [streaming_ignores_rest c hc front rest l' n hs]
+
+/-! ### typed views -/
+
+theorem textFrom_append_nl (t : Bytes) : textFrom (t ++ [10]) = t := by
+  unfold textFrom
+  simp
+
+theorem streaming_total (c : Consts) (hc : ConstsOk c) (data : Bytes) : streaming c data ≠ .panic := by
+  have hc' := hc
+  obtain ⟨hu, _⟩ := hc
+  unfold streaming
+  rw [hu]
+  by_cases h4 : data.length < 4
+  · rw [if_pos h4]; simp
+  · rw [if_neg h4]
+    have htot := hexPrefix_total c hc' (data.take 4) (by rw [List.length_take]; omega)
+    cases hp : hexPrefix c (data.take 4) with
+    | panic => exact absurd hp htot
+    | err e => simp
+    | ok p =>
+      cases p with
+      | line l => simp
+      | wanted s =>
+        simp only
+        split
+        · simp
+        · split
+          · simp
+          · have ht : ∀ d, toDataLine c d ≠ .panic := by
+              intro d; unfold toDataLine; split <;> simp
+            cases hd : toDataLine c (List.drop 4 (List.take (s + 4) data)) with
+            | panic => exact absurd hd (ht _)
+            | err e => simp
+            | ok l => simp
 
 end GixModel.C29
